@@ -1,6 +1,6 @@
 (* C14 - Hosts: normalisation (port, brackets, case) and case-insensitive add / delete / match. Theorems only. *)
 From Coq Require Import String.
-From Mux Require Import Model.Bytes Model.Tree Model.Match Proofs.Misc3.
+From Mux Require Import Model.Bytes Model.Tree Model.Match Proofs.Misc3 Proofs.HostsRestore.
 
 Theorem C14_normalise_is_lower : forall h, to_lower (normalise_host h) = normalise_host h.
 Proof. exact C14_normalise_is_lower_l. Qed.
@@ -35,5 +35,5 @@ Print Assumptions C14_delete_ci.
 
 Theorem C14_match_uses_normalised : forall t h h' ps,
     normalise_host h = normalise_host h' -> hosts_match t h ps = hosts_match t h' ps.
-Proof. exact C14_match_uses_normalised_l. Qed.
+Proof. exact hosts_match_normalise'. Qed.
 Print Assumptions C14_match_uses_normalised.
